@@ -841,11 +841,32 @@ class TomlParser:
             if "action" in field.metadata
         }
 
+        # the options without a custom action are plain bool / int / str values (the command line
+        # checks them through argparse, here the toml values are used as they are)
+        plain_fields = {field.name: field for field in fields(Config)}
+
         result = {}
         for key, value in data.items():
             key = key.replace("-", "_")
             action = actions.get(key)
-            result[key] = action.parse(value) if action else value
+            if action:
+                result[key] = action.parse(value)
+                continue
+
+            if field := plain_fields.get(key):
+                # note: bool is a subclass of int
+                if type(value) is not field.type:
+                    raise ValueError(
+                        f"invalid value for {key}: expected {field.type.__name__}, got {value!r}"
+                    )
+
+                choices = field.metadata.get("choices")
+                if choices and value not in choices:
+                    raise ValueError(
+                        f"invalid value for {key}: {value!r} (choose from {', '.join(choices)})"
+                    )
+
+            result[key] = value
         return result
 
 
